@@ -155,3 +155,39 @@ CHECKS["C14"] = {
         {"name": "FuzzSnappyUncompress", "seconds": 60},
     ],
 }
+
+CHECKS["C17"] = {
+    "pkg": "./c17/",
+    "level": "exploration",
+    "technique": ("property-based testing (rapid): grammar-based text generation -> sql.Parse twice (determinism) -> production MarshalJSON/UnmarshalJSON round trip "
+                  "(also after the production planner step calcTimeRangeAndInterval) with structural equality, Rewrite() agreement and byte-identical re-marshal; "
+                  "direct expression-tree/statement generation -> stmt.Marshal/Unmarshal; native go fuzzing of sql.Parse with the same oracle"),
+    "rule": ("TestParsedQuerySurvivesWire: SQL text derived from the query rules of sql/grammar/SQL.g4 (derivation depth <= 5); non-trivial = "
+             "expression depth of the parsed statement >= 3 and >= 3 clause kinds present out of {alias, tag condition, explicit time range, "
+             "group-by time interval, group-by tags, having, order by, limit, explain, namespace}; distinct = hash of the text. "
+             "TestParsedMetadataSurvivesWire: show namespaces|metrics|fields|tag keys|tag values text; non-trivial = condition depth >= 3 and >= 3 of "
+             "{condition, limit, namespace, prefix, tag key}. TestExprTreeRoundTrip: directly built stmt.Expr trees (every node kind, function type, "
+             "operator, any nesting the Go types allow); non-trivial = depth >= 3 and >= 3 node kinds; distinct = hash of the JSON. "
+             "TestPlannedStatementRoundTrip: directly built stmt.Query (all broker-side fields) / stmt.MetricMetadata; non-trivial = depth >= 3 and >= 3 fields set."),
+    "level_text": ("Generated-input exploration: tens of thousands of grammar-derived statements per run (the acceptance rate of the generated texts is recorded in evidence notes), "
+                   "every node kind / function / operator of the statement model in arbitrary nesting, plus coverage-guided fuzzing of the parser in the thorough tier. "
+                   "The code under test is pure, so sampling + fuzzing is the right level."),
+    "level_note": ("Trusted: json-iterator; Go reflect for deep equality. Equality: nil and empty slices are identified (JSON cannot keep the difference and no consumer "
+                   "distinguishes them); number literals are compared by float64 bit pattern; TimeRange bounds that read the wall clock are excluded from the determinism "
+                   "comparison only (never from the wire comparison)."),
+    "assumptions": ["TZ=UTC (time strings are parsed in time.Local)",
+                    "direct trees: no nil children, valid UTF-8 strings, finite numbers, Interval/StorageInterval whole seconds (what producers in /repo can build)",
+                    "wall clock later than 2022 and not jumping backwards by > 1h during a case (only affects the acceptance rate, not the oracle)",
+                    "fuzz inputs > 4 KiB are skipped"],
+    "tests": [
+        {"name": "TestParsedQuerySurvivesWire", "quick": 20000, "thorough": {"checks": 30000, "shards": 16}},
+        {"name": "TestParsedMetadataSurvivesWire", "quick": 5000, "thorough": {"checks": 50000, "shards": 2}},
+        {"name": "TestExprTreeRoundTrip", "quick": 20000, "thorough": {"checks": 200000, "shards": 4}},
+        {"name": "TestPlannedStatementRoundTrip", "quick": 10000, "thorough": {"checks": 100000, "shards": 4}},
+        {"name": "TestRegression_NilOperand", "quick": {}, "thorough": {}},
+        {"name": "TestRegression_InfNumberLiteral", "quick": {}, "thorough": {}},
+        {"name": "TestRegression_DurationOverflow", "quick": {}, "thorough": {}},
+        {"name": "TestRegression_Examples", "quick": {}, "thorough": {}},
+    ],
+    "fuzz": [{"name": "FuzzParse", "seconds": 120}],
+}
